@@ -450,7 +450,16 @@ impl<'a> Gen<'a> {
                 } else {
                     None
                 };
-                Op::ANew { a: new_adapter(), kind, span, poll_name }
+                // now and then the inner object owns other spans (children held across awaits)
+                let mut owned = vec![];
+                if self.rng.chance(1, 3) {
+                    for s in &alive {
+                        if Some(*s) != span && owned.len() < 2 && self.rng.chance(1, 3) {
+                            owned.push(*s);
+                        }
+                    }
+                }
+                Op::ANew { a: new_adapter(), kind, span, poll_name, owned }
             }
             25 => {
                 let a = *self.rng.pick(&adapters);
